@@ -33,6 +33,7 @@ def run(rep, tier):
     radius_use(rep, F)
     rhumb_wrap(rep, F)
     same_measure(rep, F)
+    metric_laws(rep, F, tier)
 
 def bearings(rep, F):
     rep.rule("R16.1", "Bearing::bearing = (x + 360) % 360 in every metric space")
@@ -286,3 +287,129 @@ def same_measure(rep, F):
         else:
             rep.ok("R16.6", "self-measure:" + short(fn.path))
     rep.floor("R16.6", "metric calls inside GeodesicMeasure", n, 8)
+
+
+def metric_laws(rep, F, tier="quick"):
+    """R16.7: the laws the property states, evaluated on witness pairs THROUGH the path tables extracted from MIR (geo's helpers inlined, libm
+    functions interpreted in IEEE doubles; geo is not run): for Haversine and Rhumb and every ordered pair of twelve witness positions
+    (antimeridian crossings in both directions, high latitudes, same meridian, equator; no poles / antipodes):
+      distance >= 0, zero for identical points, symmetric; equal to the textbook great-circle / loxodrome length;
+      bearing in [0, 360);   destination(a, bearing(a,b), distance(a,b)) = b;
+      point_at_ratio_between(a, b, r) is at distance r * distance(a, b) from a (r = 1/4, 1/2).
+    Geodesic is delegated to geographiclib (opaque; R16.3 / R16.6 decide the hand-off only)."""
+    import math
+    from ..numeval import NumEval
+    from ..evalterm import NoModel
+    rep.rule("R16.7", "Haversine and Rhumb on 132 ordered witness pairs, evaluated through the extracted path tables: distance non-negative, zero on the diagonal, symmetric and equal to the textbook length; bearing in [0, 360); destination(a, bearing(a,b), distance(a,b)) returns b within 1e-7 degrees; point_at_ratio_between(a,b,r) lies at r * distance from a (r = 1/4, 1/2)")
+    LM = "geo::algorithm::line_measures::"
+    R = 6371008.8
+    pts = [(0.0, 0.0), (10.0, 20.0), (-75.0, 40.0), (170.0, 10.0), (-170.0, 20.0), (120.0, -35.0), (2.35, 48.85), (139.7, 35.7), (30.0, 60.0), (-120.0, -45.0), (0.5, 0.5), (179.0, -10.0)]
+
+    def P(p):
+        return {"0": {"x": p[0], "y": p[1]}}
+
+    def dec_pt(v):
+        c = v["0"] if "0" in v else v
+        return (float(c["x"]), float(c["y"]))
+
+    def ref_hav(a, b):
+        f1, f2 = math.radians(a[1]), math.radians(b[1])
+        df, dl = math.radians(b[1] - a[1]), math.radians(b[0] - a[0])
+        h = math.sin(df / 2) ** 2 + math.cos(f1) * math.cos(f2) * math.sin(dl / 2) ** 2
+        return R * 2 * math.asin(math.sqrt(h))
+
+    def ref_rhumb(a, b):
+        f1, f2 = math.radians(a[1]), math.radians(b[1])
+        df = f2 - f1
+        dl = math.radians(b[0] - a[0])
+        if dl > math.pi:
+            dl -= 2 * math.pi
+        if dl < -math.pi:
+            dl += 2 * math.pi
+        dpsi = math.log(math.tan(math.pi / 4 + f2 / 2) / math.tan(math.pi / 4 + f1 / 2))
+        q = df / dpsi if abs(dpsi) > 1e-12 else math.cos(f1)
+        return R * math.sqrt(df * df + q * q * dl * dl)
+
+    def lon_diff(x, y):
+        d = (x - y) % 360.0
+        return min(d, 360.0 - d)
+    n_ok = 0
+    for space, self_val, ref in (("HaversineMeasure", {"radius": R}, ref_hav), ("Rhumb", {}, ref_rhumb)):
+        tabs = {}
+        try:
+            for tr, meth in (("distance::Distance", "distance"), ("bearing::Bearing", "bearing"), ("destination::Destination", "destination"), ("interpolate_point::InterpolatePoint", "point_at_ratio_between")):
+                fn = None
+                for im in F.impls_of(LM + tr):
+                    if im["self_ty"].split("::")[-1] == space and (meth != "distance" or all("point::Point" in a for a in im["trait_args"][2:])):
+                        fn = F.impl_fn(im, meth)
+                if fn is None:
+                    raise KeyError("%s::%s" % (space, meth))
+                tabs[meth] = (fn, [p for p in Symex(F, inline_crates=("geo", "geo_types"), max_depth=14, max_paths=5000).run(fn) if p.kind != "cut"])
+        except (KeyError, Unanalysable) as e:
+            rep.bad("R16.7", "laws:%s:unanalysable" % space, str(e))
+            continue
+
+        def call(meth, *args):
+            fn, paths = tabs[meth]
+            env = {("arg", 1): self_val}
+            for i, a in enumerate(args):
+                env[("arg", i + 2)] = a
+            ev = NumEval(F, env)
+            ev.consts = {"geo::MEAN_EARTH_RADIUS": R}
+            hit = ev.select_path(paths)
+            if len(hit) != 1 or hit[0].kind != "ret":
+                raise NoModel("%s%s selects %s" % (meth, args, [h.kind for h in hit]))
+            return ev.ev(hit[0].ret)
+        bad = None
+        worst = {"sym": 0.0, "ref": 0.0, "rt": 0.0, "ratio": 0.0}
+        try:
+            for a in pts:
+                d0 = float(call("distance", P(a), P(a)))
+                if d0 != 0.0:
+                    bad = ("distance-zero", "distance(%s, %s) = %r, not zero" % (a, a, d0))
+                    break
+                for b in pts:
+                    if a == b:
+                        continue
+                    d = float(call("distance", P(a), P(b)))
+                    d2 = float(call("distance", P(b), P(a)))
+                    brg = float(call("bearing", P(a), P(b)))
+                    if not (d >= 0):
+                        bad = ("distance-negative", "distance(%s, %s) = %r" % (a, b, d))
+                        break
+                    worst["sym"] = max(worst["sym"], abs(d - d2))
+                    if abs(d - d2) > 1e-4:
+                        bad = ("distance-symmetry", "distance(%s, %s) = %.6f but distance(%s, %s) = %.6f" % (a, b, d, b, a, d2))
+                        break
+                    worst["ref"] = max(worst["ref"], abs(d - ref(a, b)))
+                    if abs(d - ref(a, b)) > 1e-3:
+                        bad = ("distance-value", "distance(%s, %s) = %.6f m, the %s length is %.6f m" % (a, b, d, "great-circle" if space.startswith("Hav") else "loxodrome", ref(a, b)))
+                        break
+                    if not (0.0 <= brg < 360.0):
+                        bad = ("bearing-range", "bearing(%s, %s) = %r is outside [0, 360)" % (a, b, brg))
+                        break
+                    q = dec_pt(call("destination", P(a), brg, d))
+                    err = max(lon_diff(q[0], b[0]), abs(q[1] - b[1]))
+                    worst["rt"] = max(worst["rt"], err)
+                    if err > 1e-7:
+                        bad = ("round-trip", "destination(%s, bearing = %.9f, distance = %.6f) = (%.9f, %.9f), not %s" % (a, brg, d, q[0], q[1], b))
+                        break
+                    for r in (0.25, 0.5):
+                        m = call("point_at_ratio_between", P(a), P(b), r)
+                        dm = float(call("distance", P(a), P(dec_pt(m))))
+                        worst["ratio"] = max(worst["ratio"], abs(dm - r * d))
+                        if abs(dm - r * d) > 1e-3:
+                            bad = ("ratio", "point_at_ratio_between(%s, %s, %s) is %.6f m from the start, expected %.6f m" % (a, b, r, dm, r * d))
+                            break
+                    if bad:
+                        break
+                if bad:
+                    break
+        except (NoModel, TypeError, KeyError, ValueError, ZeroDivisionError) as e:
+            bad = ("non-abstractable", "a path table cannot be evaluated numerically: %s" % e)
+        if bad:
+            rep.bad("R16.7", "laws:%s:%s" % (space, bad[0]), "%s: %s" % (space, bad[1]), where=tabs["distance"][0].loc())
+        else:
+            n_ok += 1
+            rep.ok("R16.7", "laws:%s[132 pairs]" % space, sample={k: "%.3g" % v for k, v in worst.items()})
+    rep.floor("R16.7", "metric spaces evaluated", n_ok, 2)
